@@ -523,7 +523,7 @@ class Check(PropertyCheck):
     props_module = 'Props.C10'
     models = {'stan': 'XStan.v'}
     needs_gen = True
-    gen_modules = ['gen_c10']
+    gen_modules = ['gen_c10', 'gen_c10_code']
     rule = ('texts and attribute values: every string of length <= N over the alphabet < > & " \' ; # x a (N=3 quick, 4 '
             'thorough) in 4 stan contexts and through encode/attval/html2stan; random stan trees / raw XML / starttag '
             'calls / deprecation texts over the adversarial fragment list; whole runs over 5 docformats. non-trivial = '
@@ -533,6 +533,9 @@ class Check(PropertyCheck):
         'no axioms (Print Assumptions: Closed under the global context for every theorem)',
         'extraction: ExtrOcamlBasic only; OCaml 4.13.1; coq/ocaml/driver.ml',
         'translator harness/gen/gen_c10.py (escape tables read from the live twisted / docutils / pydoctor modules, fail-closed)',
+        'translator harness/gen/gen_c10_code.py (bodies of stanutils.html2stan and of the string part of deprecatedToUsefulText -> Gen/ReparseCode.v, fail-closed); '
+        'primitives of Model/ReparseIR.v assumed as documented there: str.encode, regex class substitution (table evaluated from the live regex and lambda), '
+        'XMLString = Model xml_load, str.replace / split / join / isidentifier tables',
         'correspondence harness harness/c10.py + harness/impl/c10_units.py, c10_project.py; expat (xml.parsers.expat) as the '
         'reference XML parser against which Spec/Xml.v is validated on every run',
         'modelled not verified: twisted template loading / slot filling / renderers, docutils reST parser and every '
@@ -546,7 +549,7 @@ class Check(PropertyCheck):
                  'characters texts and attribute values hold (C10_flatten_reads_back, C10_no_markup_from_text); html2stan(encode t) '
                  'is one text node except for NO-BREAK SPACE (C10_html2stan_roundtrip_partial/_refuted; FORM FEED before cc2b510: _formfeed_old_refuted); docutils encode/attval are inverted and start tags read back (C10_docutils_escape, C10_starttag_safe_partial); '
                  'validate_identifier accepts only dotted identifiers (C10_identifier_guard); which non-XML characters survive '
-                 '(C10_ctrl_chars_partial); the reST generated for @deprecated is one body line and the replacement sits in one literal for EVERY decorator argument (C10_deprecate_one_line, C10_deprecate_literal; the old clean-up: _old_refuted). Tied to /repo by regenerated escape tables and byte-for-byte correspondence; whole-run '
+                 '(C10_ctrl_chars_partial); the bodies of html2stan and deprecatedToUsefulText, translated from the current source on every run, interpret to the models (C10_code_html2stan_is_model, C10_code_deprecate_is_model); the reST generated for @deprecated is one body line and the replacement sits in one literal for EVERY decorator argument (C10_deprecate_one_line, C10_deprecate_literal; the old clean-up: _old_refuted). Tied to /repo by regenerated escape tables and byte-for-byte correspondence; whole-run '
                  'stream parses every page of tiny adversarial projects in every docformat.'),
         'note': ('Trusted: Coq kernel, extraction + OCaml driver, Python harness, expat as reference parser. Modelled not verified: '
                  'twisted template engine, docutils parser and writer visit methods, page templates (sampled by the whole-run stream). '
@@ -823,6 +826,10 @@ class Check(PropertyCheck):
             elif fn in (3, 5, 6, 7, 8, 9, 10):
                 minputs.append(enc(c))
                 mindex.append((i, 'same'))
+                if fn in (8, 10):
+                    # third leg: the code translated from the current source (Gen/ReparseCode.v), interpreted
+                    minputs.append(enc([17 if fn == 8 else 18, c[1]]))
+                    mindex.append((i, 'code'))
             elif fn == 13:
                 minputs.append(enc([5, c[1]]))
                 mindex.append((i, 'enc'))
@@ -915,6 +922,16 @@ class Check(PropertyCheck):
                     continue
                 if mo != o:
                     self.viol(out, 'correspondence', 'Model.Html2Stan.html2stan and stanutils.html2stan disagree', c, mo, o)
+                cm = m.get('code')
+                if cm is not None:
+                    if cm[0] == 1:
+                        cs = m_stan(cm[1])
+                        co: Any = [1, [1, cs[1], cs[2], canon_kids(cs[3])]]
+                    else:
+                        co = [cm[0]]
+                    self.count('code_leg_html2stan')
+                    if co != o:
+                        self.viol(out, 'correspondence', 'the interpreted translation of html2stan (Gen/ReparseCode.v) and stanutils.html2stan disagree', c, co, o)
                 self.count('html2stan_' + ('ok' if o[0] == 1 else 'parse_error'))
             elif fn == 9:
                 if oracle_only:
@@ -934,6 +951,12 @@ class Check(PropertyCheck):
                     self.viol(out, 'correspondence', 'Model.DeprecateText and extensions.deprecate disagree on the reST text', c, mo, o[:3])
                 if mm[0] == 1:
                     self.count('depr_breaks_%d' % mm[3])
+                cm = m.get('code')
+                if cm is not None:
+                    co = [1, m_text(cm[1])] if cm[0] == 1 else [cm[0]]
+                    self.count('code_leg_deprecate')
+                    if co != (o[:2] if o[0] == 1 else o):
+                        self.viol(out, 'correspondence', 'the interpreted translation of deprecatedToUsefulText (Gen/ReparseCode.v) and extensions.deprecate disagree', c, co, o[:2])
             elif fn == 13:
                 msg = oracle_reparse(c, o)
                 if msg:
